@@ -63,6 +63,450 @@ impl Bits {
     }
 }
 
+impl Bits {
+    /// C05 - the per-frame predicate. Every 11 bits the wire delivers are judged
+    /// on their own: by a fresh decoder fed bit by bit, by add_word on a fresh
+    /// decoder, by add_word on a long-lived decoder that holds whatever partial
+    /// frame the faults left behind, and through Keyboard::add_word. (That frames
+    /// do not influence each other and that clear() works is C06, not C05.)
+    fn execute_c05(&self, trace: &Trace, env: &mut Env) -> Outcome {
+        let mut h = LogHash::new();
+        let mut busy = Ps2Decoder::new(); // only ever holds junk; add_word must not care
+        let mut busy_bits = 0usize;
+        let mut kb = Keyboard::new(DynSet::new(2), DynLayout::Direct(2), hc(true));
+        let mut kb_mirror = ScancodeSet2::new();
+        let mut violation: Option<Violation> = None;
+        let mut any_fault = false;
+        let mut last_t = 0u64;
+        let mut prev_rejected = false;
+        macro_rules! fail {
+            ($l:lifetime, $i:expr, $oracle:expr, $($arg:tt)*) => {{
+                violation = Some(Violation { oracle: $oracle.to_string(), op_index: $i, detail: format!($($arg)*) });
+                break $l;
+            }};
+        }
+        'ops: for (i, top) in trace.ops.iter().enumerate() {
+            env.cur_op = i;
+            last_t = last_t.max(top.t);
+            h.mix(top.op.kind() as u64);
+            let (bits, via, sent, fault): (Vec<bool>, Via, Option<u8>, WFault) = match top.op {
+                Op::Frame { sent, fault, via } => (apply_wfault(sent, fault), via, Some(sent), fault),
+                Op::Noise { word, via } => (word_bits(word & 0x7FF).to_vec(), via, None, WFault::None),
+                Op::Edge { bit } => (vec![bit], Via::Bit, None, WFault::None),
+                Op::Clear => {
+                    busy.clear();
+                    busy_bits = 0;
+                    kb.clear();
+                    env.cov.api_calls += 2;
+                    if i > 0 {
+                        env.cov.fault("clear_with_nothing_pending");
+                        env.cov.probe("watchdog_clear_after_fault");
+                    }
+                    continue;
+                }
+                _ => continue,
+            };
+            match top.op {
+                Op::Frame { fault, .. } => {
+                    let fired = match fault {
+                        WFault::None => false,
+                        WFault::Flip(m) => m & 0x7FF != 0,
+                        _ => true,
+                    };
+                    if fired {
+                        env.cov.fault(wfault_name(&fault));
+                        any_fault = true;
+                        if let (WFault::Trunc(_), Some(TOp { op: Op::Clear, .. })) = (fault, trace.ops.get(i + 1)) {
+                            if matches!(trace.ops.get(i + 2), Some(TOp { op: Op::Edge { .. }, .. })) {
+                                env.cov.fault("early_timeout");
+                            }
+                        }
+                    }
+                }
+                Op::Noise { .. } => {
+                    env.cov.fault("noise_frame");
+                    any_fault = true;
+                }
+                Op::Edge { .. } => {
+                    env.cov.fault("stray_edge");
+                    any_fault = true;
+                }
+                _ => {}
+            }
+            if bits.len() != 11 {
+                // not a frame: the bits end up as junk in the long-lived decoder
+                for b in &bits {
+                    if busy_bits % 11 == 10 {
+                        busy.clear(); // keep it strictly partial
+                        busy_bits = 0;
+                    }
+                    let _ = busy.add_bit(*b);
+                    busy_bits += 1;
+                    env.cov.api_calls += 1;
+                }
+                if busy_bits % 11 != 0 {
+                    env.cov.fault("missed_or_late_timeout");
+                }
+                continue;
+            }
+            let w = bits_word(&bits);
+            let want = frame_verdict(&bits);
+            env.cov.hit("words_presented", w as usize);
+            // bit-serial on a fresh decoder, or whole-word on a fresh and on the busy decoder
+            let r = if via == Via::Bit {
+                let mut f = Ps2Decoder::new();
+                let mut last = FRes::Pending;
+                for (j, b) in bits.iter().enumerate() {
+                    let x = FRes::of_bit(&f.add_bit(*b));
+                    env.cov.api_calls += 1;
+                    if j < 10 {
+                        if x != FRes::Pending {
+                            fail!('ops, i, "frame-verdict-model", "fresh decoder: bit {} of the frame {:03X} already returned {}", j, w, x.show());
+                        }
+                    } else {
+                        last = x;
+                    }
+                }
+                last
+            } else {
+                let a = FRes::of_word(&Ps2Decoder::new().add_word(w));
+                let b = FRes::of_word(&busy.add_word(w));
+                env.cov.api_calls += 2;
+                env.cov.evaluations += 1;
+                if a != b {
+                    fail!(
+                        'ops,
+                        i,
+                        "frame-verdict-independent-of-decoder-state",
+                        "add_word({:03X}) returned {} on a fresh decoder and {} on a decoder holding {} bits of a partial frame",
+                        w,
+                        a.show(),
+                        b.show(),
+                        busy_bits % 11
+                    );
+                }
+                a
+            };
+            h.mix(w as u64 ^ (r.hash() << 16));
+            env.cov.evaluations += 1;
+            if r != want {
+                fail!('ops, i, "frame-verdict-model", "frame {:03X} ({}) returned {}, the PS/2 frame rule says {}", w, if via == Via::Bit { "bit by bit" } else { "add_word" }, r.show(), want.show());
+            }
+            if prev_rejected {
+                env.cov.probe("frame_right_after_rejected_frame");
+            }
+            prev_rejected = matches!(r, FRes::Err(_));
+            // the same word through Keyboard::add_word: same framing verdict, and only an
+            // accepted byte reaches the scancode stage
+            let rk = Res::of(&kb.add_word(w));
+            env.cov.api_calls += 1;
+            env.cov.hit("words_via_keyboard_add_word", w as usize);
+            let wantk = match r {
+                FRes::Err(e) => Res::Err(e),
+                FRes::Byte(b) => Res::of(&kb_mirror.advance_state(b)),
+                FRes::Pending => Res::Pending,
+            };
+            env.cov.evaluations += 1;
+            if rk != wantk {
+                fail!('ops, i, "keyboard-add_word-verdict", "Keyboard::add_word({:03X}) returned {}, expected {}", w, rk.show(), wantk.show());
+            }
+            // ground truth from the fault annotation, not from the model
+            if let Some(sent) = sent {
+                let flips = match fault {
+                    WFault::None => Some(0u16),
+                    WFault::Flip(m) => Some(m & 0x7FF),
+                    _ => None,
+                };
+                if let Some(m) = flips {
+                    env.cov.evaluations += 1;
+                    match m.count_ones() {
+                        0 => {
+                            env.cov.probe("aligned_clean_frame_checked");
+                            env.cov.hit("bytes_round_tripped", sent as usize);
+                            if r != FRes::Byte(sent) {
+                                fail!('ops, i, "valid-frame-round-trip", "device sent {:02X} undamaged (frame {:03X}); result {}", sent, w, r.show());
+                            }
+                        }
+                        1 => {
+                            let pos = m.trailing_zeros() as usize;
+                            env.cov.hit("byte_x_single_flip", sent as usize * 11 + pos);
+                            env.cov.probe("single_flip_rejected");
+                            if !matches!(r, FRes::Err(_)) {
+                                fail!('ops, i, "single-bit-corruption-rejected", "frame for {:02X} with bit {} flipped was not rejected: {}", sent, pos, r.show());
+                            }
+                        }
+                        2 => {
+                            let i0 = m.trailing_zeros() as usize;
+                            let i1 = 15 - m.leading_zeros() as usize;
+                            env.cov.hit("byte_x_double_flip", sent as usize * 55 + pair_index(i0, i1));
+                            let both_inside = (1..=9).contains(&i0) && (1..=9).contains(&i1);
+                            if both_inside {
+                                env.cov.probe("double_flip_accepted_with_changed_byte");
+                                let wantb = sent ^ (((m >> 1) & 0xFF) as u8);
+                                if r != FRes::Byte(wantb) {
+                                    fail!('ops, i, "double-bit-corruption", "frame for {:02X} with bits {} and {} flipped: got {}, expected Ok({:02X})", sent, i0, i1, r.show(), wantb);
+                                }
+                            } else {
+                                env.cov.probe("double_flip_rejected");
+                                if !matches!(r, FRes::Err(_)) {
+                                    fail!('ops, i, "double-bit-corruption", "frame for {:02X} with bits {} and {} flipped (one outside data/parity) was accepted: {}", sent, i0, i1, r.show());
+                                }
+                            }
+                        }
+                        _ => {}
+                    }
+                }
+            }
+            if env.verbose {
+                env.log.push(format!("op {} {} -> word {:03X} via {:?} -> {}", i, op_show(&top.op), w, via, r.show()));
+            }
+        }
+        env.cov.sim_time_ns += last_t as u128;
+        if any_fault {
+            env.cov.faulty_runs += 1;
+        } else {
+            env.cov.fault_free_runs += 1;
+        }
+        if let Some(v) = &violation {
+            h.mix(crate::rng::fnv(v.oracle.as_bytes()));
+        }
+        Outcome { violation, log_hash: h.0 }
+    }
+
+    /// C06 - the stateful bit path, judged purely relative to whole-word decoding:
+    /// ten 'incomplete' answers then exactly what add_word says for those 11 bits,
+    /// whatever came before and after clear() from any partial state. The frame
+    /// rule itself (C05) is deliberately not consulted.
+    fn execute_c06(&self, trace: &Trace, env: &mut Env) -> Outcome {
+        let mut h = LogHash::new();
+        let mut real = Ps2Decoder::new();
+        let mut model = RefFramer::new(); // used as a bit collector / counter only
+        let mut aligned = true;
+        let mut any_fault = false;
+        let mut faults_seen = false;
+        let mut cleared_since_fault = true;
+        let mut prev_class: Option<usize> = None;
+        let mut prev_word: Option<u16> = None;
+        let mut after_clear_from: Option<usize> = None;
+        let mut violation: Option<Violation> = None;
+        let mut last_t = 0u64;
+        // deterministic side-probe words (no PRNG in the executor: a function of the trace)
+        let mut probe_word: u16 = (trace.cfg.seed2 as u16 ^ 0x2A5) & 0x7FF;
+        macro_rules! fail {
+            ($l:lifetime, $i:expr, $oracle:expr, $($arg:tt)*) => {{
+                violation = Some(Violation { oracle: $oracle.to_string(), op_index: $i, detail: format!($($arg)*) });
+                break $l;
+            }};
+        }
+        'ops: for (i, top) in trace.ops.iter().enumerate() {
+            env.cur_op = i;
+            last_t = last_t.max(top.t);
+            h.mix(top.op.kind() as u64);
+            let (bits, sent, fault): (Vec<bool>, Option<u8>, WFault) = match top.op {
+                Op::Frame { sent, fault, .. } => (apply_wfault(sent, fault), Some(sent), fault),
+                Op::Noise { word, .. } => (word_bits(word & 0x7FF).to_vec(), None, WFault::None),
+                Op::Edge { bit } => (vec![bit], None, WFault::None),
+                Op::Clear => {
+                    let n = model.pending();
+                    env.cov.hit("clear_at_pending_count", n);
+                    if n == 10 {
+                        env.cov.probe("clear_with_10_bits_pending");
+                    }
+                    if n == 0 && cleared_since_fault && i > 0 {
+                        env.cov.fault("clear_with_nothing_pending");
+                    } else if !cleared_since_fault {
+                        env.cov.probe("watchdog_clear_after_fault");
+                    }
+                    real.clear();
+                    model.clear();
+                    env.cov.api_calls += 1;
+                    aligned = true;
+                    cleared_since_fault = true;
+                    prev_class = None;
+                    prev_word = None;
+                    after_clear_from = Some(n);
+                    if env.verbose {
+                        env.log.push(format!("op {} clear ({} bits were pending)", i, n));
+                    }
+                    continue;
+                }
+                _ => continue,
+            };
+            let is_fault_op = match top.op {
+                Op::Frame { fault, .. } => {
+                    let fired = match fault {
+                        WFault::None => false,
+                        WFault::Flip(m) => m & 0x7FF != 0,
+                        _ => true,
+                    };
+                    if fired {
+                        env.cov.fault(wfault_name(&fault));
+                        if let (WFault::Trunc(_), Some(TOp { op: Op::Clear, .. })) = (fault, trace.ops.get(i + 1)) {
+                            if matches!(trace.ops.get(i + 2), Some(TOp { op: Op::Edge { .. }, .. })) {
+                                env.cov.fault("early_timeout");
+                            }
+                        }
+                    }
+                    fired
+                }
+                Op::Noise { .. } => {
+                    env.cov.fault("noise_frame");
+                    true
+                }
+                Op::Edge { .. } => {
+                    env.cov.fault("stray_edge");
+                    true
+                }
+                _ => false,
+            };
+            if is_fault_op {
+                any_fault = true;
+                faults_seen = true;
+                cleared_since_fault = false;
+            }
+            if !aligned && matches!(top.op, Op::Frame { .. }) {
+                env.cov.fault("missed_or_late_timeout");
+            }
+            let mut final_res: Option<FRes> = None;
+            for (j, bit) in bits.iter().copied().enumerate() {
+                let st = model.state_index();
+                let pending_before = model.pending();
+                // whole-word decoding must not depend on (nor disturb) a partial frame being held
+                if pending_before > 0 && j == 0 {
+                    probe_word = probe_word.wrapping_mul(5).wrapping_add(0x3D) & 0x7FF;
+                    let a = FRes::of_word(&real.add_word(probe_word));
+                    let b = FRes::of_word(&Ps2Decoder::new().add_word(probe_word));
+                    env.cov.api_calls += 2;
+                    env.cov.evaluations += 1;
+                    env.cov.probe("add_word_on_busy_decoder");
+                    if a != b {
+                        fail!(
+                            'ops,
+                            i,
+                            "wholeword-independent-of-partial-frame",
+                            "add_word({:03X}) returned {} on the decoder holding {} bits of a partial frame, {} on a fresh decoder",
+                            probe_word,
+                            a.show(),
+                            pending_before,
+                            b.show()
+                        );
+                    }
+                }
+                let snapshot: Vec<bool> = if pending_before == 10 { model.bits.clone() } else { Vec::new() };
+                let r = FRes::of_bit(&real.add_bit(bit));
+                let _ = model.add_bit(bit);
+                env.cov.api_calls += 1;
+                env.cov.evaluations += 1;
+                h.mix(((st as u64) << 1 | bit as u64) ^ (r.hash() << 16));
+                env.cov.hit("partial_state_x_bit", st * 2 + bit as usize);
+                if pending_before < 10 {
+                    // (a) the first ten bits since the last frame boundary / clear(): 'incomplete'
+                    if r != FRes::Pending {
+                        fail!(
+                            'ops,
+                            i,
+                            "ten-incomplete-then-wholeword",
+                            "add_bit({}) with {} bits pending since the last frame boundary or clear() returned {} instead of Ok(None) (bit {} of this op)",
+                            bit as u8,
+                            pending_before,
+                            r.show(),
+                            j
+                        );
+                    }
+                } else {
+                    // (b) the 11th bit: exactly what whole-word decoding of these 11 bits returns,
+                    // asked of a fresh decoder and of this very object
+                    let mut eleven = snapshot;
+                    eleven.push(bit);
+                    let w = bits_word(&eleven);
+                    let wf = FRes::of_word(&Ps2Decoder::new().add_word(w));
+                    let ws = FRes::of_word(&real.add_word(w));
+                    env.cov.api_calls += 2;
+                    env.cov.evaluations += 2;
+                    if r != wf || r != ws {
+                        fail!(
+                            'ops,
+                            i,
+                            "ten-incomplete-then-wholeword",
+                            "11th add_bit returned {}; add_word({:03X}) of the same 11 bits returns {} on a fresh decoder and {} on this decoder{}",
+                            r.show(),
+                            w,
+                            wf.show(),
+                            ws.show(),
+                            match after_clear_from {
+                                Some(n) => format!(" (first frame after clear() with {} bits pending)", n),
+                                None => String::new(),
+                            }
+                        );
+                    }
+                    if let Some(pc) = prev_class {
+                        env.cov.hit("prev_verdict_class_x_next_word", pc * 2048 + w as usize);
+                        if pc != 0 {
+                            env.cov.probe("frame_right_after_rejected_frame");
+                        }
+                    }
+                    if let Some(pw) = prev_word {
+                        env.cov.hit("ordered_word_pairs", (pw as usize) * 2048 + w as usize);
+                    }
+                    if let Some(n) = after_clear_from {
+                        env.cov.hit("word_after_clear_from_partial", n * 2048 + w as usize);
+                    }
+                    prev_class = Some(r.class());
+                    prev_word = Some(w);
+                    after_clear_from = None;
+                }
+                if j + 1 == bits.len() {
+                    final_res = Some(r);
+                }
+            }
+            // (c) bounded recovery, at the typist's level: once clear() has been called, an
+            // undamaged frame decodes as whole-word decoding of what the device sent
+            if let (Some(sent), true, WFault::None) = (sent, aligned, fault) {
+                let want = FRes::of_word(&Ps2Decoder::new().add_word(bits_word(&encode_frame(sent))));
+                env.cov.api_calls += 1;
+                env.cov.evaluations += 1;
+                env.cov.probe("aligned_clean_frame_checked");
+                if faults_seen && cleared_since_fault {
+                    env.cov.probe("recovered_after_watchdog_clear");
+                }
+                if final_res != Some(want) {
+                    fail!(
+                        'ops,
+                        i,
+                        "recovery-after-clear",
+                        "receiver was at a frame boundary (start of run or clear()); the device sent {:02X} undamaged; bit-serial result {}, whole-word decoding of that frame gives {}",
+                        sent,
+                        final_res.map(|r| r.show()).unwrap_or_default(),
+                        want.show()
+                    );
+                }
+            }
+            match top.op {
+                Op::Frame { .. } | Op::Noise { .. } => {
+                    if bits.len() != 11 {
+                        aligned = false;
+                    }
+                }
+                Op::Edge { .. } => aligned = false,
+                _ => {}
+            }
+            if env.verbose {
+                env.log.push(format!("op {} {} -> {} bits -> {} (pending now {})", i, op_show(&top.op), bits.len(), final_res.map(|r| r.show()).unwrap_or_default(), model.pending()));
+            }
+        }
+        env.cov.sim_time_ns += last_t as u128;
+        if any_fault {
+            env.cov.faulty_runs += 1;
+        } else {
+            env.cov.fault_free_runs += 1;
+        }
+        if let Some(v) = &violation {
+            h.mix(crate::rng::fnv(v.oracle.as_bytes()));
+        }
+        Outcome { violation, log_hash: h.0 }
+    }
+}
+
 impl Scenario for Bits {
     fn id(&self) -> &'static str {
         self.pid()
@@ -274,323 +718,11 @@ impl Scenario for Bits {
     }
 
     fn execute(&self, trace: &Trace, env: &mut Env) -> Outcome {
-        let pid = self.pid();
-        let _ = pid;
-        let mut h = LogHash::new();
-        let mut real = Ps2Decoder::new();
-        let mut model = RefFramer::new();
-        let mut kb = Keyboard::new(DynSet::new(2), DynLayout::Direct(2), hc(true));
-        let mut kb_mirror = ScancodeSet2::new();
-        // ground-truth alignment: true when, by construction of the trace, the
-        // next Frame op starts at a frame boundary of the receiver
-        let mut aligned = true;
-        let mut any_fault = false;
-        let mut faults_seen = false;
-        let mut cleared_since_fault = true;
-        let mut prev_class: Option<usize> = None; // verdict class of the frame completed immediately before
-        let mut prev_word: Option<u16> = None;
-        let mut after_clear_from: Option<usize> = None;
-        let mut violation: Option<Violation> = None;
-        let mut last_t = 0u64;
-        let c05 = self.prop == WProp::C05;
-
-        macro_rules! fail {
-            ($l:lifetime, $i:expr, $oracle:expr, $($arg:tt)*) => {{
-                violation = Some(Violation { oracle: $oracle.to_string(), op_index: $i, detail: format!($($arg)*) });
-                break $l;
-            }};
-        }
-
-        'ops: for (i, top) in trace.ops.iter().enumerate() {
-            env.cur_op = i;
-            last_t = last_t.max(top.t);
-            h.mix(top.op.kind() as u64);
-            // what reaches the host in this op
-            let (bits, via, sent, fault): (Vec<bool>, Via, Option<u8>, WFault) = match top.op {
-                Op::Frame { sent, fault, via } => (apply_wfault(sent, fault), via, Some(sent), fault),
-                Op::Noise { word, via } => (word_bits(word & 0x7FF).to_vec(), via, None, WFault::None),
-                Op::Edge { bit } => (vec![bit], Via::Bit, None, WFault::None),
-                Op::Clear => {
-                    let n = model.pending();
-                    if !c05 {
-                        env.cov.hit("clear_at_pending_count", n);
-                        if n == 10 {
-                            env.cov.probe("clear_with_10_bits_pending");
-                        }
-                    }
-                    if n == 0 && cleared_since_fault && i > 0 {
-                        env.cov.fault("clear_with_nothing_pending");
-                    } else if !cleared_since_fault {
-                        env.cov.probe("watchdog_clear_after_fault");
-                    }
-                    real.clear();
-                    kb.clear();
-                    model.clear();
-                    env.cov.api_calls += 2;
-                    aligned = true;
-                    cleared_since_fault = true;
-                    prev_class = None;
-                    prev_word = None;
-                    after_clear_from = Some(n);
-                    if env.verbose {
-                        env.log.push(format!("op {} clear ({} bits were pending)", i, n));
-                    }
-                    continue;
-                }
-                _ => continue,
-            };
-            // fault accounting (fired, not configured)
-            let is_fault_op = match top.op {
-                Op::Frame { fault, .. } => {
-                    let fired = match fault {
-                        WFault::None => false,
-                        WFault::Flip(m) => m & 0x7FF != 0,
-                        _ => true,
-                    };
-                    if fired {
-                        env.cov.fault(wfault_name(&fault));
-                        // an early timeout shows as: truncated frame, clear, stray edges
-                        if let (WFault::Trunc(_), Some(TOp { op: Op::Clear, .. })) = (fault, trace.ops.get(i + 1)) {
-                            if matches!(trace.ops.get(i + 2), Some(TOp { op: Op::Edge { .. }, .. })) {
-                                env.cov.fault("early_timeout");
-                            }
-                        }
-                    }
-                    fired
-                }
-                Op::Noise { .. } => {
-                    env.cov.fault("noise_frame");
-                    true
-                }
-                Op::Edge { .. } => {
-                    env.cov.fault("stray_edge");
-                    true
-                }
-                _ => false,
-            };
-            if is_fault_op {
-                any_fault = true;
-                faults_seen = true;
-                cleared_since_fault = false;
-            }
-            if !aligned && matches!(top.op, Op::Frame { .. }) {
-                // the watchdog did not restore alignment before the next frame arrived
-                env.cov.fault("missed_or_late_timeout");
-            }
-            let use_word = via == Via::Word && bits.len() == 11 && model.pending() == 0;
-            let mut final_res: Option<FRes> = None;
-            let mut all_pending_before_last = true;
-            if use_word {
-                let w = bits_word(&bits);
-                let r = FRes::of_word(&real.add_word(w));
-                env.cov.api_calls += 1;
-                let want = frame_verdict(&bits);
-                h.mix(w as u64 ^ (r.hash() << 16));
-                if c05 {
-                    env.cov.hit("words_presented", w as usize);
-                    env.cov.evaluations += 1;
-                    if r != want {
-                        fail!('ops, i, "frame-verdict-model", "add_word({:03X}) returned {}, the PS/2 frame rule says {}", w, r.show(), want.show());
-                    }
-                    // the same word through Keyboard::add_word: the framing verdict must be the same,
-                    // and only an accepted byte reaches the scancode stage
-                    let rk = Res::of(&kb.add_word(w));
-                    env.cov.api_calls += 1;
-                    env.cov.hit("words_via_keyboard_add_word", w as usize);
-                    let wantk = match want {
-                        FRes::Err(e) => Res::Err(e),
-                        FRes::Byte(b) => Res::of(&kb_mirror.advance_state(b)),
-                        FRes::Pending => Res::Pending,
-                    };
-                    env.cov.evaluations += 1;
-                    if rk != wantk {
-                        fail!('ops, i, "keyboard-add_word-verdict", "Keyboard::add_word({:03X}) returned {}, expected {}", w, rk.show(), wantk.show());
-                    }
-                }
-                if let Some(pc) = prev_class {
-                    if !c05 {
-                        env.cov.hit("prev_verdict_class_x_next_word", pc * 2048 + w as usize);
-                    }
-                    if pc != 0 {
-                        env.cov.probe("frame_right_after_rejected_frame");
-                    }
-                }
-                prev_class = Some(r.class());
-                prev_word = Some(w);
-                final_res = Some(r);
-            } else {
-                for (j, bit) in bits.iter().copied().enumerate() {
-                    let st = model.state_index();
-                    let pending_before = model.pending();
-                    let snapshot: Vec<bool> = if pending_before == 10 { model.bits.clone() } else { Vec::new() };
-                    let r = FRes::of_bit(&real.add_bit(bit));
-                    let m = model.add_bit(bit);
-                    env.cov.api_calls += 1;
-                    h.mix((st as u64) << 1 | bit as u64 ^ (r.hash() << 16));
-                    if !c05 {
-                        env.cov.hit("partial_state_x_bit", st * 2 + bit as usize);
-                        env.cov.evaluations += 1;
-                        // (a) lock-step shift-register model
-                        if r != m {
-                            fail!('ops, i,
-                                "lockstep-shift-register",
-                                "add_bit({}) with {} bits pending returned {}, expected {} (bit {} of this op)",
-                                bit as u8,
-                                pending_before,
-                                r.show(),
-                                m.show(),
-                                j
-                            );
-                        }
-                    }
-                    if pending_before == 10 {
-                        let mut eleven = snapshot;
-                        eleven.push(bit);
-                        let w = bits_word(&eleven);
-                        if c05 {
-                            env.cov.hit("words_presented", w as usize);
-                            env.cov.evaluations += 1;
-                            let want = frame_verdict(&eleven);
-                            if r != want {
-                                fail!('ops, i, "frame-verdict-model", "11 bits {:03X} shifted in returned {}, the PS/2 frame rule says {}", w, r.show(), want.show());
-                            }
-                        } else {
-                            // (b) differential on the same object: whole-word decoding of the same 11 bits
-                            let rw = FRes::of_word(&real.add_word(w));
-                            env.cov.api_calls += 1;
-                            env.cov.evaluations += 1;
-                            if rw != r {
-                                fail!('ops, i, "bitserial-equals-wholeword", "11th add_bit returned {}, add_word({:03X}) of the same bits returned {}", r.show(), w, rw.show());
-                            }
-                            if let Some(pc) = prev_class {
-                                env.cov.hit("prev_verdict_class_x_next_word", pc * 2048 + w as usize);
-                            }
-                            if let Some(pw) = prev_word {
-                                env.cov.hit("ordered_word_pairs", (pw as usize) * 2048 + w as usize);
-                            }
-                            if let Some(n) = after_clear_from {
-                                env.cov.hit("word_after_clear_from_partial", n * 2048 + w as usize);
-                            }
-                        }
-                        if let Some(pc) = prev_class {
-                            if pc != 0 {
-                                env.cov.probe("frame_right_after_rejected_frame");
-                            }
-                        }
-                        prev_class = Some(r.class());
-                        prev_word = Some(w);
-                        after_clear_from = None;
-                    } else if !c05 && pending_before > 0 && pending_before < 10 && j == 0 {
-                        // add_word on a decoder that holds a partial frame must not disturb it
-                        if let Op::Edge { .. } = top.op {
-                            let _ = real.add_word(0x7FF);
-                            env.cov.api_calls += 1;
-                            env.cov.probe("add_word_on_busy_decoder");
-                        }
-                    }
-                    if j + 1 < bits.len() {
-                        if r != FRes::Pending {
-                            all_pending_before_last = false;
-                        }
-                    } else {
-                        final_res = Some(r);
-                    }
-                }
-            }
-            // ground truth that does not go through the model
-            if let (Some(sent), true) = (sent, aligned) {
-                if bits.len() == 11 {
-                    let got = final_res.unwrap_or(FRes::Pending);
-                    let flips = match fault {
-                        WFault::None => Some(0u16),
-                        WFault::Flip(m) => Some(m & 0x7FF),
-                        _ => None,
-                    };
-                    if let Some(m) = flips {
-                        env.cov.evaluations += 1;
-                        match m.count_ones() {
-                            0 => {
-                                env.cov.probe("aligned_clean_frame_checked");
-                                if c05 {
-                                    env.cov.hit("bytes_round_tripped", sent as usize);
-                                }
-                                if faults_seen && cleared_since_fault && !c05 {
-                                    env.cov.probe("recovered_after_watchdog_clear");
-                                }
-                                if !all_pending_before_last || got != FRes::Byte(sent) {
-                                    let oracle = if c05 { "valid-frame-round-trip" } else { "recovery-after-clear" };
-                                    fail!('ops, i,
-                                        oracle,
-                                        "receiver was at a frame boundary (start of run or clear()); device sent {:02X} undamaged; result {}{}",
-                                        sent,
-                                        got.show(),
-                                        if all_pending_before_last { "" } else { " and an earlier bit of the frame already produced a result" }
-                                    );
-                                }
-                            }
-                            1 if c05 => {
-                                let pos = m.trailing_zeros() as usize;
-                                env.cov.hit("byte_x_single_flip", sent as usize * 11 + pos);
-                                env.cov.probe("single_flip_rejected");
-                                if !matches!(got, FRes::Err(_)) {
-                                    fail!('ops, i, "single-bit-corruption-rejected", "frame for {:02X} with bit {} flipped was not rejected: {}", sent, pos, got.show());
-                                }
-                            }
-                            2 if c05 => {
-                                let i0 = m.trailing_zeros() as usize;
-                                let i1 = 15 - m.leading_zeros() as usize;
-                                env.cov.hit("byte_x_double_flip", sent as usize * 55 + pair_index(i0, i1));
-                                let both_inside = (1..=9).contains(&i0) && (1..=9).contains(&i1);
-                                if both_inside {
-                                    env.cov.probe("double_flip_accepted_with_changed_byte");
-                                    let want = sent ^ (((m >> 1) & 0xFF) as u8);
-                                    if got != FRes::Byte(want) {
-                                        fail!('ops, i, "double-bit-corruption", "frame for {:02X} with bits {} and {} flipped: got {}, expected Ok({:02X})", sent, i0, i1, got.show(), want);
-                                    }
-                                } else {
-                                    env.cov.probe("double_flip_rejected");
-                                    if !matches!(got, FRes::Err(_)) {
-                                        fail!('ops, i, "double-bit-corruption", "frame for {:02X} with bits {} and {} flipped (one outside data/parity) was accepted: {}", sent, i0, i1, got.show());
-                                    }
-                                }
-                            }
-                            _ => {}
-                        }
-                    }
-                }
-            }
-            // alignment after this op
-            match top.op {
-                Op::Frame { .. } | Op::Noise { .. } => {
-                    if bits.len() != 11 {
-                        aligned = false;
-                    }
-                }
-                Op::Edge { .. } => aligned = false,
-                _ => {}
-            }
-            if env.verbose {
-                env.log.push(format!(
-                    "op {} {} -> {} bits via {:?} -> {} (model pending now {})",
-                    i,
-                    op_show(&top.op),
-                    bits.len(),
-                    if use_word { Via::Word } else { Via::Bit },
-                    final_res.map(|r| r.show()).unwrap_or_default(),
-                    model.pending()
-                ));
-            }
-        }
-        env.cov.sim_time_ns += last_t as u128;
-        if any_fault {
-            env.cov.faulty_runs += 1;
+        if self.prop == WProp::C05 {
+            self.execute_c05(trace, env)
         } else {
-            env.cov.fault_free_runs += 1;
+            self.execute_c06(trace, env)
         }
-        if let Some(v) = &violation {
-            h.mix(crate::rng::fnv(v.oracle.as_bytes()));
-        }
-        Outcome { violation, log_hash: h.0 }
     }
 
     fn primary_reach(&self) -> &'static str {
@@ -618,16 +750,23 @@ impl Scenario for Bits {
     }
     fn rule(&self) -> String {
         match self.prop {
-            WProp::C05 => "one evaluation = one completed frame whose real verdict (add_bit / Ps2Decoder::add_word / Keyboard::add_word) was compared with the frame-rule model or with the injected-fault ground truth; distinct_nontrivial = distinct (byte, pair of flipped bit positions) double corruptions presented (bitset), single flips and all 2048 words are separate measures; faults are sampled by a seeded wire simulation and stratified by run index so the small spaces saturate".into(),
-            WProp::C06 => "one evaluation = one add_bit result compared in lock-step with the shift-register model, or one 11th-bit result compared with add_word of the same bits, or one clean frame after clear() compared with the byte sent; distinct_nontrivial = distinct (verdict class of the preceding frame, next 11-bit word) pairs (bitset)".into(),
+            WProp::C05 => "one evaluation = one 11-bit frame as delivered by the faulty wire whose real verdict (bit by bit on a fresh decoder / add_word on a fresh and on a busy decoder / Keyboard::add_word) was compared with the frame-rule model or with the injected-fault ground truth; distinct_nontrivial = distinct (byte, pair of flipped bit positions) double corruptions presented (bitset), single flips and all 2048 words are separate measures; faults are sampled by a seeded wire simulation and stratified by run index so the small spaces saturate".into(),
+            WProp::C06 => "one evaluation = one add_bit result compared with the statement (Ok(None) for the first ten bits since the last boundary or clear(), then exactly what add_word returns for those 11 bits on a fresh decoder and on the same object), or one add_word on a decoder holding a partial frame compared with a fresh decoder, or one clean frame after clear() compared with whole-word decoding of what was sent; the frame rule itself (C05) is not consulted; distinct_nontrivial = distinct (verdict class of the preceding frame, next 11-bit word) pairs (bitset)".into(),
         }
     }
     fn assumptions(&self) -> Vec<String> {
-        vec![
-            "sampled, not enumerated; 'saturated' is a measured outcome of the reach bitsets".into(),
-            "trusted base: RefFramer / frame_verdict / encode_frame in model.rs, written from the PS/2 frame description".into(),
-            "words with bits above bit 10 are outside the documented precondition and are only used by C08".into(),
-        ]
+        match self.prop {
+            WProp::C05 => vec![
+                "sampled, not enumerated; 'saturated' is a measured outcome of the reach bitsets".into(),
+                "trusted base: frame_verdict / encode_frame in model.rs, written from the PS/2 frame description".into(),
+                "each delivered frame is judged on a fresh decoder (and by add_word on a busy one): independence of frames and clear() are C06's business".into(),
+                "words with bits above bit 10 are outside the documented precondition and are only used by C08".into(),
+            ],
+            WProp::C06 => vec![
+                "sampled, not enumerated; 'saturated' is a measured outcome of the reach bitsets".into(),
+                "trusted base: a bit counter (RefFramer used as collector only) and a fresh instance of the real decoder's add_word; the frame rule (C05) is not consulted, so a wrong frame rule does not trip this check".into(),
+            ],
+        }
     }
     fn components_real(&self) -> Vec<&'static str> {
         match self.prop {
